@@ -211,15 +211,18 @@ def run_eg_class(ctx, rng, S):
     else:
         # regime in which predictors first discovered during the gap evaluation enter the support later: weights_ out of id order
         cfg = dict(eps=float(gen.pick(rng, [0.2, 0.3, 0.05])), max_iter=int(gen.pick(rng, [10, 20, 40])), eta0=float(gen.pick(rng, [8.0, 30.0])))
-    eg = red.ExponentiatedGradient(ExactLearner(hclass=gen.pick(rng, ["cells", "thresholds"])), moment, nu=1e-6, run_linprog_step=lp, **cfg)
+    pandas_aware = bool(rng.random() < 0.3)   # a base estimator whose predict() returns a Series indexed like its (shuffled) input frame
+    eg = red.ExponentiatedGradient(ExactLearner(hclass=gen.pick(rng, ["cells", "thresholds"]), output="series_like_X" if pandas_aware else "ndarray"),
+                                   moment, nu=1e-6, run_linprog_step=lp, **cfg)
     kw = {"sensitive_features": ds.g}
     if ds.c is not None:
         kw["control_features"] = ds.c
-    eg.fit(ds.X, ds.y, **kw)
-    wit = {"moment": kind, "bound": list(bound), "y": ds.y, "groups": ds.g, "control": ds.c, "x": ds.X[:, 0].tolist(), "lp": lp,
+    Xfit = pd.DataFrame(ds.X, index=rng.permutation(ds.n)) if pandas_aware else ds.X
+    eg.fit(Xfit, ds.y, **kw)
+    wit = {"moment": kind, "bound": list(bound), "y": ds.y, "groups": ds.g, "control": ds.c, "x": ds.X[:, 0].tolist(), "lp": lp, "pandas_aware_estimator": pandas_aware,
            "weights": {str(k): float(v) for k, v in eg.weights_.items()}}
     Xq = np.vstack([ds.X, ds.X[rng.permutation(ds.n)[: min(6, ds.n)]]])
-    Xq = Xq if rng.random() < 0.5 else pd.DataFrame(Xq, index=gen.hostile_index(len(Xq), gen.pick(rng, gen.INDEX_KINDS), rng))
+    Xq = Xq if (rng.random() < 0.5 and not pandas_aware) else pd.DataFrame(Xq, index=(rng.permutation(len(Xq)) if pandas_aware else gen.hostile_index(len(Xq), gen.pick(rng, gen.INDEX_KINDS), rng)))
     p = check_pmf(ctx, eg._pmf_predict(Xq), wit)
     if p is None:
         return
@@ -233,7 +236,7 @@ def run_eg_class(ctx, rng, S):
     mix = np.zeros(len(p))
     for t in w.index:
         if w[t] != 0:
-            mix += float(w[t]) * np.asarray(eg.predictors_[t].predict(Xq), float)
+            mix += float(w[t]) * np.asarray(eg.predictors_[t].predict(Xq), float)   # np.asarray: row order of the query, whatever the container
     ctx.ev("mixture_rows_compared", len(p))
     ctx.check(bool(np.allclose(p, mix, atol=1e-12)), "positive_probability_is_not_the_weighted_mixture_of_stored_predictors",
               got=p[:10].tolist(), expected=mix[:10].tolist(), wit=wit)
